@@ -184,6 +184,14 @@ example : (c2Signed 8 0x18 * c2Signed 8 0xF8) / (2:Int)^4 % (2:Int)^8 = 0xF4 := 
 
 /-! ### (3) FPNum: an FPNum denotes the rational  s · m / p · 2^e  (`FPNum.value`, Helper/Spec.lean) -/
 
+/- Remark (purity).  In this model `add`, `sub`, `mul`, `compare`, `convert` are FUNCTIONS of their operands: `a.add b` cannot change
+   `a` or `b`, so every theorem below silently assumes that the real methods leave both operand objects untouched (the real `add`
+   and `compare` work on fresh copies `FPNum(self.s, …)`, `FPNum(bref.s, …)` and call the in-place `increase_exponent /
+   increase_precision` only on those).  That assumption is not provable here; it is CHECKED on the implementation by the harness
+   oracle "operands are not modified" (harness/c12.py `oracle_arith`: components, flags and `convert(fmt)` bits of both operand objects
+   are snapshotted before and compared after every add/sub/mul/compare, and the same objects are re-used in a chain of operations). -/
+example (a b : FPNum) : (fun (_ : Option FPNum) => (a, b)) (a.add b) = (a, b) := rfl
+
 /-- normalisation never changes the value, keeps the sign, and leaves `m = 0` or `p ≤ m < 2p` -/
 theorem adjust_semp_preserves_value (x y : FPNum) (hp : 0 < x.p) (hm : 0 ≤ x.m) (h : adjust_semp x = some y) :
     y.value = x.value ∧ y.s = x.s ∧ 0 < y.p ∧ (y.m = 0 ∨ (y.p ≤ y.m ∧ y.m < 2 * y.p)) :=
